@@ -410,6 +410,13 @@ def check_property(prop, tier="quick", tree="/repo", record=False, jobs=None, le
     limits = [r for r in resA if r["limit"] and (r["qualname"], r["variant"]) not in covered] + \
              [r for r in resB if r["limit"] and (not unb(r["qualname"]) or r.get("fallback_of_unbounded"))
               and not r.get("limit_covered_by_fallback")]
+    # generator functions whose proof is out of reach on this tree are still decided (bounded) by the run-time contract
+    # monitor on the real generator, which the C14 / C15 / C16 checks always run afterwards (checks/gen_monitor.py)
+    by_monitor = [r for r in limits if getattr(REG.contracts[r["qualname"]], "standin_by_monitor", False)
+                  and prop in ("C14", "C15", "C16")]
+    limits = [r for r in limits if r not in by_monitor]
+    for r in by_monitor:
+        standin[(r["qualname"], r["variant"])] = f"{r['limit']}; decided by the generator run-time monitor"
     D_rt = {f"{r['qualname']}[{r['variant']}]": r["rt_fallback"] for r in resB if r.get("rt_fallback")}
     # ---- aggregate mode A by obligation name
     agg = {}
